@@ -113,16 +113,33 @@ OP(new_zero_f)
     free(fz);
     return rc;
 }
-OP(solve_A3)      { NEED(F->vnpA3); return vnacal_new_solve(F->vnpA3); }
-OP(solve_A5)      { NEED(F->vnpA5); return vnacal_new_solve(F->vnpA5); }
-OP(solve_A1)      { NEED(F->vnpA1); return vnacal_new_solve(F->vnpA1); }
-OP(getval_shared)
+/* the shared unknowns at and between the frequencies of every object: a
+   solved unknown is tabulated on the grid of the solve that stored it, so
+   reading it between points after each solve walks whatever the library
+   remembers about the previous table (search hints, segment caches) */
+static void read_shared(fx_t *F)
 {
-    /* the shared unknowns at every frequency of every object */
     for (int k = 0; k < 5; ++k) {
 	(void)vnacal_get_parameter_value(F->vcp, F->p_shared, F->f5[k]);
 	(void)vnacal_get_parameter_value(F->vcp, F->p_sharedc, F->f5[k]);
     }
+    for (int k = 4; k > 0; --k) {
+	double fm = 0.5 * (F->f5[k] + F->f5[k - 1]);
+	(void)vnacal_get_parameter_value(F->vcp, F->p_shared, fm);
+	(void)vnacal_get_parameter_value(F->vcp, F->p_sharedc, fm);
+    }
+    /* leave the last look-up high in the band */
+    (void)vnacal_get_parameter_value(F->vcp, F->p_shared,
+	    0.3 * F->f5[3] + 0.7 * F->f5[4]);
+    (void)vnacal_get_parameter_value(F->vcp, F->p_sharedc,
+	    0.3 * F->f5[3] + 0.7 * F->f5[4]);
+}
+OP(solve_A3)      { NEED(F->vnpA3); int rc = vnacal_new_solve(F->vnpA3); read_shared(F); return rc; }
+OP(solve_A5)      { NEED(F->vnpA5); int rc = vnacal_new_solve(F->vnpA5); read_shared(F); return rc; }
+OP(solve_A1)      { NEED(F->vnpA1); int rc = vnacal_new_solve(F->vnpA1); read_shared(F); return rc; }
+OP(getval_shared)
+{
+    read_shared(F);
     (void)vnacal_get_parameter_value(F->vcp, F->p_unknown, F->f3[1]);
     return 0;
 }
